@@ -57,6 +57,7 @@ func init() {
 			{ID: "C07-R32", Title: "a host Call leaves the resume point alone", Floor: 1, Run: aHostCallLeavesTheResumePointAlone},
 			{ID: "C07-R33", Title: "frame storage is per activation and re-pointed by its owners only (shared with C02-R17)", Floor: 3, Run: frameStorageIsPerActivation},
 			{ID: "C07-R34", Title: "nesting counters of the VM are taken off in a deferred function (shared with C03-R34)", Floor: 1, Run: nestingCountersAreKeptOnEveryPath},
+			{ID: "C07-R35", Title: "what holds loaded code is forgotten with it (shared with C14-R28)", Floor: 1, Run: whatHoldsLoadedCodeIsForgottenWithIt},
 		},
 	})
 }
